@@ -53,6 +53,7 @@ type c07In struct {
 	Msg      string   `json:"msg_hex,omitempty"`
 	Mut      *c07Mut  `json:"mutation,omitempty"`
 	NilKnown bool     `json:"nil_known,omitempty"`
+	Seed     int64    `json:"seed,omitempty"` // op "table": the table and message are drawn from this seed
 }
 
 func c07Hex(s string) string   { return hex.EncodeToString([]byte(s)) }
@@ -1246,7 +1247,7 @@ func runC07(c *hx.Ctx) {
 
 	// a Verifiers table whose entries do not match their keys (the mismatched-verifier check)
 	for i := 0; i < c.N(300); i++ {
-		c07Table(c, r)
+		c07Table(c07In{Op: "table", Seed: r.Int63()}, sink)
 	}
 }
 
@@ -1268,7 +1269,8 @@ func (t c07TableVerifiers) Verifier(name string, hash uint32) (note.Verifier, er
 	return nil, &note.UnknownVerifierError{Name: name, KeyHash: hash}
 }
 
-func c07Table(c *hx.Ctx, r *rand.Rand) {
+func c07Table(in c07In, s *c07Sink) {
+	r := rand.New(rand.NewSource(in.Seed))
 	key := []byte{8, 1}
 	text := "table\n"
 	names := []string{"a", "b"}
@@ -1298,8 +1300,22 @@ func c07Table(c *hx.Ctx, r *rand.Rand) {
 	var err error
 	p, _ := hx.Guard(func() { n, err = note.Open([]byte(msg.String()), tv) })
 	res := c07EncOpen(n, err, p)
-	c.Case("Open", wire.L(wire.S(msg.String()), wire.L(wt...), wire.L()), res)
-	c.Count("table:" + res.L[0].S + ":" + map[bool]string{true: res.L[1].S, false: ""}[res.L[0].S == "err"])
+	if s.kase != nil {
+		s.kase("Open", wire.L(wire.S(msg.String()), wire.L(wt...), wire.L()), res)
+	}
+	s.cnt("table:" + res.L[0].S + ":" + map[bool]string{true: res.L[1].S, false: ""}[res.L[0].S == "err"])
+	// a signature is listed as verified only if the verifier the table returned for its key
+	// really is a verifier for that name and hash
+	obs := ""
+	if err == nil && !p {
+		for _, sg := range n.Sigs {
+			v, verr := tv.Verifier(sg.Name, sg.Hash)
+			if verr != nil || v.Name() != sg.Name || v.KeyHash() != sg.Hash {
+				obs = fmt.Sprintf("signature %s+%08x listed as verified by a verifier for another name or hash", sg.Name, sg.Hash)
+			}
+		}
+	}
+	s.check("verifier-matches-signature", obs == "", "", in, obs)
 }
 
 func replayC07(raw json.RawMessage) (bool, string) {
@@ -1322,6 +1338,8 @@ func replayC07(raw json.RawMessage) (bool, string) {
 		c07Name(in, sink)
 	case "vkey":
 		c07VKey(in, sink)
+	case "table":
+		c07Table(in, sink)
 	default:
 		return false, "unknown op " + in.Op
 	}
